@@ -373,10 +373,18 @@ fn join(ms: &[Machine], sep: &str) -> Vec<u8> {
 
 /// a valid session: start, batches of events, stop
 fn gen_run(p: &mut Prng, id: String, deep: bool) -> FfiCase {
-    let n = *p.pick(&[0usize, 1, 1, 2, 2, 3, 3, 4, 5]);
+    // one session in ten: many machines (past 64 and 128 indices), copies of one machine so that all of
+    // them act in the same call and the action buffer is filled to num_machines
+    let many = p.chance(1, 10);
+    let n = if many { *p.pick(&[65usize, 70, 130]) } else { *p.pick(&[0usize, 1, 1, 2, 2, 3, 3, 4, 5]) };
     let fb = *p.pick(&[0.0, 0.0, 0.0, -0.0, 0.5, 1.0]);
     let fp = *p.pick(&[0.0, 0.0, -0.0, 0.5, 1.0, 1e-9, 0.25]);
-    let ms = gen_machines(p, n, fb > 0.0);
+    let ms = if many {
+        let one = gen_machines(p, 1, fb > 0.0);
+        (0..n).map(|_| one[0].clone()).collect()
+    } else {
+        gen_machines(p, n, fb > 0.0)
+    };
     let mut mstr = match p.below(10) {
         0 => join(&ms, "\r\n"),
         _ => join(&ms, "\n"),
